@@ -663,3 +663,50 @@ package engine
 //@   at-call (*promiseStack).recover requires[exact-error] a1 == popped.err && len(popped.delayed) == 0
 //@   ensures[true-has-no-error] ok ==> err == nil
 //@   ensures[error-origin] err != nil && called(rerr) ==> err == rerr
+
+//@ ---------------------------------------------------------------- catch/3, throw/1, call/N (C03, C04)
+
+//@ func (*Env).Unify
+//@   trusted
+//@   modifies nothing
+
+//@ func (*Env).Resolve
+//@   trusted
+//@   modifies nothing
+
+//@ func Catch
+//@   property C04
+//@   frozen env, catcher, recover, k, vm, goal
+
+//@ func Catch$1
+//@   property C04
+//@   nosafety
+//@   bind uenv, uok = (*Env).Unify#1
+//@   bind r = Call#1
+//@   at-call (*Env).Unify requires[call-time-env] a0 == env && a1 == catcher
+//@   at-call Call requires[recovery-in-its-place] uok && a0 == vm && a1 == recover && a2 == k && a3 == uenv
+//@   ensures[declines-when-no-unify] !uok ==> result == nil
+//@   ensures[recovers-when-unifies] uok ==> called(r) && result == r
+
+//@ func Catch$2
+//@   property C04
+//@   nosafety
+//@   at-call Call requires[goal-in-call-env] a0 == vm && a1 == goal && a2 == k && a3 == env
+
+//@ func Throw
+//@   property C04
+//@   nosafety
+//@   bind b = (*Env).Resolve#1
+//@   at-call (*Env).Resolve requires[the-ball] a1 == ball
+//@   at-call NewException requires[copy-of-ball] a0 == b && !(b is Variable)
+//@   at-call InstantiationError requires[only-for-variable] b is Variable
+
+//@ func Call
+//@   property C03
+//@   nosafety
+//@   at-call (*userDefined).call requires[fresh-procedure] fresh(a0) && a1 == vm && a3 == k && a4 == env
+
+//@ func CallNth$1
+//@   property C03
+//@   nosafety
+//@   at-call cut requires[cuts-to-own-call] a0 == p
